@@ -111,7 +111,7 @@ pub fn gen_c03(rng: &Rng, tier: Tier) -> ReadScn {
         let n = input.iter().filter(|x| **x == if fmt == Fmt::Fasta { b'>' } else { b'@' }).count();
         return ReadScn { fmt, input, cfgs: vec![a, b], ops: ops_next_to_end(n), mon: Monitors::default(), profile: if big { "default_capacity_short_reads".into() } else { "interrupt_storm".into() } };
     }
-    if rng.chance(1, 1500) {
+    if rng.chance(1, 800) {
         // one record beyond 64 KiB / 1 MiB / 8 MiB: a capacity around that size against another one
         let (input, class, t) = huge_input(rng, fmt);
         let a = huge_cfg(rng, t, input.len());
